@@ -211,3 +211,108 @@ Fixpoint glue_obs (n : nat) (cfg : epcfg) (g : gstate) (recs : list (option hmsg
 Definition run_glue_case (c : nat * list Z * Z * epcfg * list gevent) : obsv :=
   let '(n, allowed, limit, cfg, evs) := c in
   OL (glue_obs n cfg (ginit allowed limit) [] evs).
+
+(* ---------- a node: both directions of one network, as executed by the harness ----------
+   Inbound:  run_inbound_stream  = inbound handshake  -> inbound pool insert -> serve -> remove.
+   Outbound: run_outbound_stream = dial, outbound handshake expecting [peer] -> outbound pool
+   insert -> serve -> remove.  The two pools are separate objects.  Connections are numbered in
+   the order they are opened (either direction); connection c runs on session id c. *)
+Record ncfg : Type := {
+  nc_net : net;
+  nc_key : Z;
+  nc_gen : Z;
+  nc_in_allowed : list Z;    (* gossip: static_inbound;          validator: committee *)
+  nc_in_limit : Z;           (* gossip: dynamic_inbound_limit;   validator: 0 *)
+  nc_out_allowed : list Z;   (* gossip: static_outbound keys;    validator: committee *)
+}.
+
+Definition cfg_in (nc : ncfg) : epcfg :=
+  {| e_net := nc_net nc; e_key := nc_key nc; e_gen := nc_gen nc; e_role := RIn;
+     e_statics := nc_in_allowed nc |}.
+Definition cfg_out (nc : ncfg) (peer : Z) : epcfg :=
+  {| e_net := nc_net nc; e_key := nc_key nc; e_gen := nc_gen nc; e_role := ROut peer;
+     e_statics := nc_out_allowed nc |}.
+
+Record nstate : Type := {
+  n_in : gstate;
+  n_out : gstate;
+  n_recs : list (option hmsg);   (* per connection: what the node sent (the adversary's record) *)
+}.
+
+Definition ninit (nc : ncfg) : nstate :=
+  {| n_in := ginit (nc_in_allowed nc) (nc_in_limit nc);
+     n_out := ginit (nc_out_allowed nc) 0;        (* both outbound pools: extra_limit 0 *)
+     n_recs := [] |}.
+
+Inductive nevent : Type :=
+| NConn (a : advmsg)              (* a peer connects and delivers a *)
+| NDial (peer : Z) (a : advmsg)   (* the node dials expecting [peer]; the other end answers a *)
+| NDialDead (peer : Z)            (* the node dials; the other end closes before the preface ends *)
+| NDisc (c : nat).                (* the other end of connection c closes *)
+
+Definition nstep (nc : ncfg) (st : nstate) (e : nevent) : outcome perr nstate :=
+  let sid := Z.of_nat (length (n_recs st)) in
+  match e with
+  | NConn a =>
+      let hs := decide (cfg_in nc) sid (resolve (n_recs st) a) in
+      match gstep (n_in st) (GConn sid hs) with
+      | Ok g' => Ok {| n_in := g'; n_out := n_out st;
+                       n_recs := n_recs st ++ [emit_accept (cfg_in nc) sid hs] |}
+      | Err x => Err x | Panic x => Panic x
+      end
+  | NDial p a =>
+      let recs' := n_recs st ++ [emit_open (cfg_out nc p) sid] in
+      let hs := decide (cfg_out nc p) sid (resolve recs' a) in
+      match gstep (n_out st) (GConn sid hs) with
+      | Ok g' => Ok {| n_in := n_in st; n_out := g'; n_recs := recs' |}
+      | Err x => Err x | Panic x => Panic x
+      end
+  | NDialDead p => Ok {| n_in := n_in st; n_out := n_out st; n_recs := n_recs st ++ [None] |}
+  | NDisc c =>
+      match gstep (n_in st) (GDisc (Z.of_nat c)) with
+      | Ok gi =>
+          match gstep (n_out st) (GDisc (Z.of_nat c)) with
+          | Ok go => Ok {| n_in := gi; n_out := go; n_recs := n_recs st |}
+          | Err x => Err x | Panic x => Panic x
+          end
+      | Err x => Err x | Panic x => Panic x
+      end
+  end.
+
+Fixpoint nrun (nc : ncfg) (st : nstate) (evs : list nevent) : outcome perr nstate :=
+  match evs with
+  | [] => Ok st
+  | e :: evs' => match nstep nc st e with
+                 | Ok st' => nrun nc st' evs'
+                 | Err x => Err x | Panic x => Panic x
+                 end
+  end.
+
+(* observation after an event: event specific part, is the connection live, both pools *)
+Definition node_obs1 (n : nat) (nc : ncfg) (st st' : nstate) (e : nevent) : obsv :=
+  let sid := Z.of_nat (length (n_recs st)) in
+  let pools := [obs_current n (g_pool (n_in st')); obs_current n (g_pool (n_out st'))] in
+  match e with
+  | NConn _ =>
+      OL ([ob (match nth_error (n_recs st') (length (n_recs st)) with Some (Some _) => true | _ => false end);
+           ob (is_live sid (n_in st'))] ++ pools)
+  | NDial _ _ =>
+      OL ([oopt obs_msg (match nth_error (n_recs st') (length (n_recs st)) with Some o => o | None => None end);
+           ob (is_live sid (n_out st'))] ++ pools)
+  | NDialDead _ => OL ([OL []; OZ 0] ++ pools)
+  | NDisc _ => OL ([OZ 0; OZ 0] ++ pools)
+  end.
+
+Fixpoint node_obs (n : nat) (nc : ncfg) (st : nstate) (evs : list nevent) : list obsv :=
+  match evs with
+  | [] => []
+  | e :: evs' =>
+      match nstep nc st e with
+      | Ok st' => node_obs1 n nc st st' e :: node_obs n nc st' evs'
+      | Err _ => [OL [OZ 2]]
+      | Panic x => [OL [OZ 1; OZ (panic_code x)]]
+      end
+  end.
+
+Definition run_node_case (c : nat * ncfg * list nevent) : obsv :=
+  let '(n, nc, evs) := c in OL (node_obs n nc (ninit nc) evs).
